@@ -1120,7 +1120,7 @@ func vfExec(cl *vfCluster, sc *vfScen, rid int, timeout time.Duration) (res *vfR
 	}
 
 	switch sc.Kind {
-	case "select", "cost":
+	case "select", "query", "cost":
 		mapper := &ClusterShardMapper{MetaClient: mc, TSDBStore: coord.st, MetaExecutor: me}
 		m := &influxql.Measurement{Database: vfDB, RetentionPolicy: vfRP, Name: vfMeasurement}
 		tr := influxql.TimeRange{Min: vfT0.Add(time.Minute), Max: vfT0.Add(time.Duration(n)*time.Hour - time.Minute)}
@@ -1195,7 +1195,7 @@ func vfExec(cl *vfCluster, sc *vfScen, rid int, timeout time.Duration) (res *vfR
 			finish("success", reads, nil)
 			return res, nil
 		}
-		if !sc.Trace && (sc.Variant/7)%2 == 1 {
+		if sc.Kind == "query" {
 			// the whole statement through the query engine (compile, map, field mapping, cursor)
 			sg.Close()
 			reads, qerr, e := vfEngineSelect(mapper, tr, n, &res.Notes)
@@ -1414,7 +1414,7 @@ func vfEngineSelect(mapper *ClusterShardMapper, tr influxql.TimeRange, n int, no
 // for the all-nodes fan-out the classes of the shard's owners; with no shards: all classes of the scenario.
 func vfFaultSig(sc *vfScen, res *vfResult, shards []int) string {
 	set := map[string]bool{}
-	resultOp := map[string]string{"select": "CI", "cost": "IC"}[sc.Kind]
+	resultOp := map[string]string{"select": "CI", "query": "CI", "cost": "IC"}[sc.Kind]
 	for _, s := range shards {
 		asked := ""
 		if res != nil && resultOp != "" {
@@ -1519,7 +1519,30 @@ func vfJudge(sc *vfScen, res *vfResult) (sigs []string, detail string) {
 			}
 		}
 		// the property: success means every shard exactly once
-		if len(missing) > 0 {
+		ciCalls := 0
+		for _, e := range res.Events {
+			if e["e"] == "call" && e["op"] == "CI" {
+				ciCalls++
+			}
+		}
+		if len(missing) == n && kind == "query" && ciCalls == 0 && len(res.Notes) == 0 {
+			// the engine built no iterator at all: every MapType failed and the failure was dropped
+			set := map[string]bool{}
+			for _, s := range missing {
+				for _, o := range sc.Owners[s-1] {
+					// only a node that cannot be reached at request time makes MapType fail
+					if f := sc.Fault[o]; f == "dialFail" || f == "stall" {
+						set[f] = true
+					}
+				}
+			}
+			var l []string
+			for f := range set {
+				l = append(l, f)
+			}
+			sort.Strings(l)
+			add("maptype-lost:" + kind + ":" + strings.Join(l, "+"))
+		} else if len(missing) > 0 {
 			add("partial:" + kind + ":" + vfFaultSig(sc, res, missing))
 		}
 		if len(twice) > 0 {
